@@ -1155,7 +1155,8 @@ func selftest(t *testing.T) {
 		fail("field moduli")
 	}
 	if new(big.Int).SetBytes(new(fp64.Fp).Order()).Cmp(p64) != 0 || new(big.Int).SetBytes(new(fp128.Fp).Order()).Cmp(p128) != 0 {
-		fail("moduli differ from Fp.Order()")
+		// depends on circl, outside C19 (field constants, C12): the model's arithmetic would use another modulus
+		fail("circl misbehaved outside C19: fp64.Fp.Order() = %x, fp128.Fp.Order() = %x differ from the draft's moduli %x, %x", new(fp64.Fp).Order(), new(fp128.Fp).Order(), p64, p128)
 	}
 	b := make([]byte, 32)
 	v, _ := new(big.Int).SetString("123456789abcdef0fedcba9876543210", 16)
